@@ -1,5 +1,7 @@
 
 import numpy as np
+from ...util import hashobj
+
 from .ancillary_feature import AncillaryFeature
 
 
@@ -91,7 +93,10 @@ def has_ml_scores(mm):
         # this ML score. But this use case is basically non-existent and
         # the performance impact is probably negligible.
         candidates = AncillaryFeature.get_instances(feat)
-        idlist.append((feat, [c.hash(mm) for c in candidates]))
+        idlist.append((feat,
+                       [c.hash(mm) for c in candidates],
+                       # the score data themselves (e.g. temporary features)
+                       hashobj(mm[feat])))
     return idlist
 
 
